@@ -9,7 +9,7 @@ pub const OPS: &[&str] = &[
     "get_res0_cells", "is_first_child", "get_stride", "get_num_cells", "get_num_children", "uncompact",
     "compact_cover", "compact_max", "compact_total", "uncompact_total", "order", "order_children", "reference", "purity", "curve_roundtrip", "hex", "hex_parse",
     "lonlat_to_cell", "cell_to_lonlat", "cell_to_boundary", "cell_area",
-    "frame", "nearest_face", "boundary_geometry", "cell_area_measured", "reference_geo",
+    "pentagon_centre", "frame", "nearest_face", "boundary_geometry", "cell_area_measured", "reference_geo",
 ];
 
 pub struct Rng(u64);
@@ -428,18 +428,41 @@ pub fn run_op(op: &str, a: &[String]) -> Result<(), String> {
             }
             Ok(())
         }
-        "curve_roundtrip" => {
+        "curve_roundtrip" | "pentagon_centre" => {
             // C17 (bounded stand-in for deep curve levels): the probe nudged strictly inside the lattice triangle of
-            // position s (the nudge of the repository's own test) is located back at s; depth 1..=28
+            // position s (the nudge of the repository's own test) is located back at s; depth 1..=29
             use a5::core::hilbert::{ij_to_s, s_to_anchor, Orientation, NO, YES};
             let n = pu64(&a[0]) as usize;
             let oi = pu64(&a[1]) as usize;
             let sv = pu64(&a[2]);
             let ors = [Orientation::UV, Orientation::VU, Orientation::UW, Orientation::WU, Orientation::VW, Orientation::WV];
-            if n < 1 || n > 28 || sv >= (1u64 << (2 * n)) {
+            if n < 1 || n > 29 || sv >= (1u64 << (2 * n)) {
                 return Ok(());
             }
             let o = ors[oi % 6];
+            if op == "pentagon_centre" {
+                // C17, the sentence about pentagons (bounded, sampled): the centre of the pentagon at position s lies in the
+                // quintant's triangle and is located back at s
+                use a5::core::coordinate_transforms::face_to_ij;
+                use a5::core::tiling::{get_pentagon_vertices, get_quintant_vertices};
+                let got = guard(|| {
+                    let an = s_to_anchor(sv, n, o);
+                    let shape = get_pentagon_vertices(n as i32, 0, &an);
+                    let c = shape.get_center();
+                    let inside = get_quintant_vertices(0).contains_point(c);
+                    // the locator works in the lattice of depth n: face coordinates scaled by 2^n (as lonlat_to_estimate does)
+                    let k = 2.0_f64.powi(n as i32);
+                    let scaled = a5::coordinate_systems::Face::new(c.x() * k, c.y() * k);
+                    (inside, ij_to_s(face_to_ij(scaled), n, o), c.x(), c.y())
+                })?;
+                if !(got.0 > 0.0) {
+                    return Err(format!("depth {} orientation {:?}: centre ({:e}, {:e}) of the pentagon at position {} lies outside the quintant triangle", n, o, got.2, got.3, sv));
+                }
+                if got.1 != sv {
+                    return Err(format!("depth {} orientation {:?}: the centre of the pentagon at position {} is located at {}", n, o, sv, got.1));
+                }
+                return Ok(());
+            }
             let got = guard(|| {
                 let an = s_to_anchor(sv, n, o);
                 let (fx, fy) = (an.flips[0], an.flips[1]);
@@ -509,6 +532,29 @@ pub fn run_op(op: &str, a: &[String]) -> Result<(), String> {
                             let nrm = (x * x + y * y + z * z).sqrt();
                             let ll = to_lon_lat(to_spherical(a5::coordinate_systems::Cartesian::new(x / nrm, y / nrm, z / nrm)));
                             calls.push(Call::L2C(ll.longitude(), ll.latitude(), 20));
+                        }
+                    }
+                }
+            }
+            // back-to-back calls on cells whose curve position differs in ONE bit (high, middle, low): memo keys that
+            // truncate or hash the position collide exactly on such pairs
+            for r in [29, 28, 26, 20, 9] {
+                for _ in 0..2 {
+                    let lon = (rng.below(3_600_000) as f64) / 10_000.0 - 180.0;
+                    let lat = (rng.below(1_600_001) as f64) / 10_000.0 - 80.0;
+                    if let Ok(x) = a5::lonlat_to_cell(a5::LonLat::new(lon, lat), r) {
+                        if let Some(c) = dec(x) {
+                            let nb = 2 * (r - 1);
+                            for k in [nb - 1, nb - 2, nb - 9, nb / 2, 0] {
+                                if k < 0 || s_limit(r) <= (1u64 << k) {
+                                    continue;
+                                }
+                                let y = enc(Cell { s: c.s ^ (1u64 << k), ..c });
+                                calls.push(Call::C2L(x));
+                                calls.push(Call::C2L(y));
+                                calls.push(Call::C2B(x, 1));
+                                calls.push(Call::C2B(y, 1));
+                            }
                         }
                     }
                 }
@@ -1152,9 +1198,9 @@ pub fn generate(op: &str, rng: &mut Rng, budget: u64, f: &mut dyn FnMut(Vec<Stri
                 }
             }
         }
-        "curve_roundtrip" => {
-            // digit-pattern families at every depth 1..=28 x 6 orientations, then random positions
-            for n in 1..=28u64 {
+        "curve_roundtrip" | "pentagon_centre" => {
+            // digit-pattern families at every depth 1..=29 x 6 orientations, then random positions
+            for n in 1..=29u64 {
                 let lim = 1u64 << (2 * n);
                 let mut fam: Vec<u64> = vec![0, lim - 1, 0x5555_5555_5555_5555 % lim, 0xAAAA_AAAA_AAAA_AAAA % lim,
                                              0x3333_3333_3333_3333 % lim, 0xCCCC_CCCC_CCCC_CCCC % lim, 0x6666_6666_6666_6666 % lim, 0x9999_9999_9999_9999 % lim];
@@ -1179,7 +1225,7 @@ pub fn generate(op: &str, rng: &mut Rng, budget: u64, f: &mut dyn FnMut(Vec<Stri
                 }
             }
             for _ in 0..budget {
-                let n = 1 + rng.below(28);
+                let n = 1 + rng.below(29);
                 let sv = rng.below(1u64 << (2 * n));
                 if !f(vec![n.to_string(), rng.below(6).to_string(), sv.to_string()]) {
                     return;
@@ -1244,11 +1290,13 @@ pub fn generate(op: &str, rng: &mut Rng, budget: u64, f: &mut dyn FnMut(Vec<Stri
         "cell_to_boundary" => {
             let mut r2 = Rng::new(rng.next());
             interesting_ids(rng, budget / 4, &mut |x| {
-                let seg = match r2.below(6) {
+                let seg = match r2.below(8) {
                     0 => "none".to_string(),
                     1 => "1".to_string(),
                     2 => "0".to_string(),
                     3 => "-1".to_string(),
+                    // fine subdivisions too (the subdivision points of a resolution-29 cell are 1e-9 of a face apart)
+                    4 => [12, 16, 23, 32, 46, 64][r2.below(6) as usize].to_string(),
                     _ => (1 + r2.below(8)).to_string(),
                 };
                 // default segment count explodes for coarse cells only up to 64: fine
